@@ -43,3 +43,59 @@ def native_scope_leak(name):
             if d[0] > 0 or d[1] > allowed:
                 return {'probe': t, 'parser': parser, 'depths_after_parse': d, 'begin_keywords_in_text': allowed}
     return None
+
+
+_CORPUS = None
+
+
+def corpus():
+    """the repository's own inputs: raw strings of sv-parser-parser/src/tests.rs (wrapped in a module when the test targets
+    module items) and the preprocessor test files"""
+    global _CORPUS
+    if _CORPUS is not None:
+        return _CORPUS
+    import re, glob, os, build
+    out = []
+    src = open(os.path.join(build.SNAP, 'sv-parser-parser', 'src', 'tests.rs'), encoding='utf-8').read()
+    for m in re.finditer(r'test!\(\s*([^,]+?),\s*r(#+)"(.*?)"\2\s*,\s*(Ok|Err)', src, re.S):
+        parser, _, text, exp = m.groups()
+        if exp != 'Ok':
+            continue
+        parser = parser.strip()
+        if parser == 'source_text':
+            out.append(('sv', text))
+        elif parser == 'library_text':
+            out.append(('lib', text))
+        elif 'module_item' in parser:
+            out.append(('sv', 'module t;\n' + text + '\nendmodule\n'))
+    for f in sorted(glob.glob(os.path.join(build.SNAP, 'sv-parser-pp', 'testcases', 'expected', '*.sv'))):
+        try:
+            out.append(('sv', open(f, encoding='utf-8').read()))
+        except Exception:
+            pass
+    out += [('sv', 'class c;\n int x;\nendclass : c\n'), ('sv', 'timeprecision 1ps;\ntimeunit 1ns;\nmodule m; endmodule\n'),
+            ('lib', 'library l1 a.v,\n b.v\n;\ninclude c.map;\n'), ('lib', 'library l a.v\n;\n')]
+    _CORPUS = out
+    return out
+
+
+def native_tiling_witness(limit=1500):
+    """first corpus text whose real tree violates the leaf tiling / line / get_str facts of C01 (or None)"""
+    nat = E.native()
+    n = 0
+    for kind, text in corpus()[:limit]:
+        r = nat.request({'cmd': 'parse', 'text': text, 'path': 't.sv', 'lib': kind == 'lib', 'want': ['leaves']}, cache=True)
+        if not r.get('ok'):
+            continue
+        n += 1
+        b = text.encode('utf-8')
+        cur = 0
+        for off, line, ln in r['leaves']:
+            if off != cur or ln <= 0:
+                return {'text': text[:400], 'problem': 'leaf at offset %d (len %d) does not follow previous leaf end %d' % (off, ln, cur)}
+            if line != 1 + b[:off].count(b'\n'):
+                return {'text': text[:400], 'problem': 'leaf at offset %d has line %d, expected %d' % (off, line, 1 + b[:off].count(b'\n'))}
+            cur = off + ln
+        if cur != len(b):
+            return {'text': text[:400], 'problem': 'leaves end at %d, text has %d bytes' % (cur, len(b))}
+    return None
